@@ -45,7 +45,19 @@ THEME9 = ("This round is about SILENT DEGRADATION. The regression must NOT raise
           "target versus truth). Think like a maintainer: a tidy-up, a comprehension rewritten, zip versus zip_longest, enumerate "
           "start, a sort added or removed, `or` versus `if ... is None`, dict.update order, a slice bound. Use a file AND function none "
           "of the earlier changes is in. Earlier rounds asked for the following, all still welcome: ")
-theme = THEME9 if rnd == "9" else THEME8 if rnd == "8" else THEME5 if rnd == "5" else (THEME6 if rnd == "6" else (THEME7 if rnd == "7" else ""))
+THEME10 = ("This round wants regressions that live in the SEAMS: (a) TWO COOPERATING SITES that each look fine alone - a helper whose "
+           "contract changes slightly (returns a view instead of a copy, a list instead of a tuple, None instead of '', a stripped string) "
+           "and one distant caller that relied on the old contract while all others do not care; (b) STATE THAT SURVIVES between calls - a "
+           "module-level cache or memo keyed by too little, a mutable default argument, a registry that is appended to, an object that "
+           "is reused instead of rebuilt - so that the FIRST call is right and a LATER call (another input, the same command again, the "
+           "second file of a directory, the second class of a module) is wrong; (c) the FAULT PATH - what is left behind when something "
+           "fails at a particular point: a file opened for writing before the work that may raise, an except clause that now swallows "
+           "or converts an error and lets the command carry on with half a result, a cleanup that no longer runs; (d) the ENVIRONMENT - "
+           "behaviour that changes with an environment variable the tool reads (e.g. DOCTRANS_LINE_LENGTH), the current directory, a "
+           "relative versus absolute path, a trailing newline or CRLF or BOM in the file, the order in which a directory is listed. "
+           "The regression must stay invisible in a single ordinary call on ordinary input. Use a file AND function none of the earlier "
+           "changes is in. Earlier rounds asked for the following, all still welcome: ")
+theme = THEME10 if rnd == "10" else THEME9 if rnd == "9" else THEME8 if rnd == "8" else THEME5 if rnd == "5" else (THEME6 if rnd == "6" else (THEME7 if rnd == "7" else ""))
 out = "/tmp/wt/prompts%s" % rnd
 os.makedirs(out, exist_ok=True)
 tpl = open(os.path.join(os.path.dirname(os.path.abspath(__file__)), "prompt_template.txt")).read()
